@@ -84,7 +84,7 @@ func bin(op string, x, y *node) *node { return &node{Op: op, X: paren(x), Y: par
 func un(op string, x *node) *node     { return &node{Op: "u" + op, X: paren(x)} }
 
 // builtin calls on constant operands: real(x), imag(x), complex(x, y)
-func call1(name string, x *node) *node { return &node{Op: name, X: x} }
+func call1(name string, x *node) *node    { return &node{Op: name, X: x} }
 func call2(name string, x, y *node) *node { return &node{Op: name, X: x, Y: y} }
 func realOrImag(r *vh.Rng) string {
 	if r.Bool() {
